@@ -145,6 +145,10 @@ def special_sets(rng):
     yield [a, b], 'unsigned_mixed', 'signed_then_unsigned'
     yield [a, b, [rng.randrange(50) for _ in range(10)]], 'unsigned_mixed', 'signed_then_unsigned'
     yield [[x + 1 for x in a], [x + 1 for x in b]], 'unsigned_mixed', 'signed_then_unsigned'
+    # a CONTIGUOUS alphabet that spans more than the narrow dtype holding it (int8 labels -100..100, int16 labels -20000..20000 would be too many states)
+    c = list(range(-100, 101)) + [rng.randint(-100, 100) for _ in range(60)] + list(range(100, -101, -1))
+    yield [c], 'narrow_arrays', 'contiguous_wide_int8'
+    yield [c[:150], c[150:]], 'narrow_arrays', 'contiguous_wide_int8'
 
 
 # --------------------------------------------------------------------------- matrices (C04, C14)
